@@ -212,7 +212,7 @@ def obligations(tier, seed):
     quick = tier == 'quick'
     t = 200 if quick else 1200
     probes = ['agg', 'unnest', 'like', 'dcount', 'divide', 'minmax', 'top', 'join', 'sorted', 'avgstr'] if quick else [c for c in CASES if not c.endswith('-swapped')]
-    probes = probes + ['named', 'named-update']
+    probes = probes + [x for x in ('named', 'named-update') if x not in probes]
     for pi, p in enumerate(probes):
         for first in range(1, 16):
             if p.startswith('named') and first not in (10, 11, 12, 1, 7):
